@@ -14,7 +14,10 @@ use serde_json::json;
 fn gen_app(rng: &mut Rng, ids: &mut IdGen, depth: usize, params_left: usize, taken_above: &RouteT) -> AppDesc {
     let _ = taken_above;
     let id = ids.app();
-    let n_items = rng.range(1, if depth == 0 { 7 } else { 4 });
+    // one application in eight is *wide*: 10-18 items at the top level, all answering GET, so that one node of one method tree gets more
+    // children than any small-node special case covers (linear scan vs. bisection, inline vs. heap storage), among them compressed chains
+    let wide = depth == 0 && rng.chance(1, 8);
+    let n_items = if wide { rng.range(10, 18) } else { rng.range(1, if depth == 0 { 7 } else { 4 }) };
     let mut items: Vec<ItemDesc> = vec![];
     // patterns used so far in this app (relative): (pattern, is_mount)
     let mut used: Vec<(RouteT, bool)> = vec![];
@@ -50,6 +53,10 @@ fn gen_app(rng: &mut Rng, ids: &mut IdGen, depth: usize, params_left: usize, tak
             let mut ms: Vec<usize> = (0..5).collect();
             rng.shuffle(&mut ms);
             let k = *rng.pick_weighted(&[(6, 1usize), (3, 2), (1, 3), (1, 5)]);
+            if wide {
+                ms.retain(|m| *m != 0);
+                ms.insert(0, 0);
+            }
             for m in ms.into_iter().take(k) {
                 if existing.contains(&m) {
                     continue;
